@@ -190,6 +190,11 @@ func (s *Session) opStart(a *actor, st Step, extra tr.E) {
 }
 
 func (s *Session) opRet(a *actor, st Step, f tr.E) {
+	if st.Op != "recv" && f["cls"] == "eof" {
+		// io.EOF is end-of-stream only as the result of a receive; from any other
+		// call it is a plain error
+		f["cls"], f["code"], f["msg"], f["plain"] = "err", -1, "EOF", true
+	}
 	f["end"] = a.end
 	f["rpc"] = a.rpc
 	f["act"] = a.name
